@@ -61,6 +61,20 @@ package io
 //@   loop 1 modifies this.buffers[*]
 //@   loop 1 decreases this.jobs - i
 
+//@ func NewWriter
+//@   mode int
+//@   props C01 C17
+//@   ensures result1 != nil ==> result0 == nil                                                      #no-writer-on-error
+//@   ensures result1 == nil ==> result0 != nil && fresh(result0) && result0.repW() && result0.buffersOK() && result0.closed == 0 && result0.closing == 0 && result0.finalized == 0 && result0.initialized == 0 && result0.available == 0 && result0.blockID == 0 && result0.streamCloser == os     #rep-established
+//@   modifies nothing
+
+//@ func NewWriterWithCtx2
+//@   mode int
+//@   props C01 C17
+//@   ensures result1 != nil ==> result0 == nil
+//@   ensures result1 == nil ==> result0 != nil && fresh(result0) && result0.repW() && result0.buffersOK() && result0.closed == 0 && result0.available == 0 && result0.blockID == 0 && result0.obs == obs     #rep-established
+//@   modifies ctx[*]
+
 //@ func NewWriterWithCtx
 //@   mode int
 //@   props C01 C17 C19
@@ -221,6 +235,13 @@ package io
 //@   modifies ctx[*]
 //@   loop 1 invariant 0 - 1 <= rangeindex && rangeindex <= len(this.buffers) && len(this.buffers) == 2*this.jobs && this.jobs == tasks
 //@   loop 1 modifies this.buffers[*]
+
+//@ func NewReader
+//@   mode int
+//@   props C01 C17
+//@   ensures result1 != nil ==> result0 == nil                                                      #no-reader-on-error
+//@   ensures result1 == nil ==> result0 != nil && fresh(result0) && result0.repR0() && result0.closed == 0 && result0.initialized == 0 && result0.available == 0 && result0.consumed == 0 && result0.blockID == 0 && result0.streamCloser == is     #rep-established
+//@   modifies nothing
 
 //@ func NewReaderWithCtx
 //@   mode int
